@@ -26,6 +26,9 @@ pub struct RunCfg {
     /// 1 Parser::from_read, 2 Parser::from_buf_reader (BufReader that has already buffered input),
     /// 3 Parser::from_boxed_dyn_read - the parser's own entry points, default chunk size
     pub ctor: u8,
+    /// ctor 0 only: bytes the caller consumes from the DeferredReader (a byte order mark, a magic number) before it
+    /// builds the LineReader / parser on it: line 1 then starts there
+    pub pre_advance: usize,
 }
 
 /// what a parser is constructed from
@@ -63,6 +66,7 @@ impl RunCfg {
             is_ref: true,
             build: if cfg!(debug_assertions) { "dev" } else { "release" },
             ctor: 0,
+            pre_advance: 0,
         }
     }
 }
@@ -221,6 +225,13 @@ fn make_input(input: &[u8], cfg: &RunCfg) -> Input {
                 DeferredReader::from_read(src)
             };
             r.set_chunk_size(cfg.chunk);
+            if cfg.pre_advance > 0 {
+                trace::sync_source_counter();
+                let got = r.request(cfg.pre_advance).len().min(cfg.pre_advance);
+                r.advance(got);
+                // the LineReader the parser is about to build starts its first line here
+                trace::rec(json!({"ev":"lrnew","pos":r.position()}));
+            }
             Input::Reader(r)
         }
     };
@@ -735,7 +746,7 @@ pub fn run_traced(id: u64, input: &[u8], cfg: &RunCfg) {
         "expect":expect.unwrap_or(json!([])),"parser":cfg.parser,"lit":cfg.lit,"flag":cfg.flag,
         "input":bytes_json(input),"limit":limit,"faulty":cfg.fault.is_some(),"chunk":cfg.chunk,
         "policy":policy_json(&cfg.policy),"lines": matches!(cfg.policy, Policy::Lines), "intr":cfg.intr_pm > 0,
-        "ref":cfg.is_ref,"build":cfg.build,"bufreader":cfg.bufreader.is_some() || cfg.ctor == 2,"ctor":cfg.ctor}));
+        "ref":cfg.is_ref,"build":cfg.build,"bufreader":cfg.bufreader.is_some() || cfg.ctor == 2,"ctor":cfg.ctor,"pre":cfg.pre_advance}));
     if !long {
         let reader = make_input(input, cfg);
         dispatch(reader, cfg);
